@@ -102,8 +102,24 @@ def shape_block_arg(nested):
     return sh
 
 
+def shape_application_tokens(kinds):
+    def sh(B):
+        items = [("IDENTIFIER", "m"), ("LPAREN", "(")]
+        for i, k in enumerate(kinds):
+            if i:
+                items.append(("COMMA", ","))
+            items += [("LBRACE", "{"), ("OPCODE_NAKED", "nop"), ("RBRACE", "}")] if k == "block" else [("NUMBER", str(i + 1))]
+        items += [("RPAREN", ")"), ("EOF", "")]
+        toks = [B.inst("a816.parse.tokens.Token", type=B.enum("a816.parse.tokens.TokenType", tt), value=v, position=None) for tt, v in items]
+        return {"p": B.inst("a816.parse.parser.Parser", tokens=B.list(toks), pos=0, initial_state=None), "kinds": B.list(list(kinds))}
+    return sh
+
+
 def own_cases(E):
     cs = []
+    for kinds in (("expr",), ("block",), ("expr", "block"), ("block", "expr"), ("expr", "block", "expr"), ("block", "block"), ("expr", "expr", "block")):
+        cs.append(Case("vf.contracts.c_parser.macro_application_arguments_contract", "m(" + ", ".join(kinds) + ")", shape_application_tokens(kinds),
+                       target=["a816.parse.parser_states.parse_macro_application", "a816.parse.parser_states.parse_expression_list", "a816.parse.parser_states.parse_expression_list_inner"]))
     for nested in (False, True):
         cs.append(Case(H + "code_block_argument_contract", "spliced " + ("two scopes down" if nested else "directly in the body"), shape_block_arg(nested),
                        target=[G + "generate_code_lookup", G + "generate_macro_application"]))
@@ -130,6 +146,11 @@ def cases(E):
     # passes replay; errors of expanded statements propagate): labels and parameters live in those scopes
     from vf.props import expansion
     cs += expansion.cases(E)
+    # every block / named scope / application / iteration gets a scope object of its own (never an earlier sibling's)
+    from vf.props import C08 as _c08
+    cs += _c08.scope_creation_cases(E)
+    # a parameter used as an operand is read when the application's bindings are final (deferred arguments are bound late), not when it was first looked at
+    cs += c02.value_node_cases(E)
     return cs
 
 
